@@ -2,6 +2,7 @@ package main
 
 import (
 	"fmt"
+	"reflect"
 	"sort"
 	"strings"
 
@@ -76,6 +77,20 @@ type resToken struct {
 	Token int
 }
 
+// Static resource types for the generic resource API routes.
+type resT0 struct{ Token int }
+type resT1 struct{ Token int }
+type resT2 struct{ Token int }
+type resT3 struct{ Token int }
+
+type tokener interface{ tok() int }
+
+func (r *resToken) tok() int { return r.Token }
+func (r *resT0) tok() int    { return r.Token }
+func (r *resT1) tok() int    { return r.Token }
+func (r *resT2) tok() int    { return r.Token }
+func (r *resT3) tok() int    { return r.Token }
+
 // World wraps a real ecs.World with the bookkeeping needed to execute symbolic schedules.
 type World struct {
 	h        Header
@@ -90,7 +105,7 @@ type World struct {
 	regLive  []bool
 	queries  []*openQuery
 	resIDs   []ecs.ResID
-	resVals  map[int]*resToken
+	resVals  map[int]interface{}
 	resSeq   int
 	events   []map[string]interface{}
 	lst      *recListener
@@ -231,7 +246,7 @@ func NewWorld(h Header) *World {
 	}
 	cfg := ecs.NewConfig().WithCapacityIncrement(h.CapInc).WithRelationCapacityIncrement(h.RelCapInc)
 	w := ecs.NewWorld(cfg)
-	x := &World{h: h, w: &w, comps: map[int]*compInfo{}, resVals: map[int]*resToken{}}
+	x := &World{h: h, w: &w, comps: map[int]*compInfo{}, resVals: map[int]interface{}{}}
 	specs := append([]CompSpec{}, h.Comps...)
 	sort.Slice(specs, func(i, j int) bool { return specs[i].ID < specs[j].ID })
 	next := 0
@@ -250,7 +265,18 @@ func NewWorld(h Header) *World {
 		next = cs.ID + 1
 	}
 	for i := 0; i < h.NRes; i++ {
-		x.resIDs = append(x.resIDs, ecs.ResourceTypeID(&w, makeType("filler", 20000+i)))
+		switch i {
+		case 0:
+			x.resIDs = append(x.resIDs, ecs.ResourceID[resT0](&w))
+		case 1:
+			x.resIDs = append(x.resIDs, ecs.ResourceID[resT1](&w))
+		case 2:
+			x.resIDs = append(x.resIDs, ecs.ResourceID[resT2](&w))
+		case 3:
+			x.resIDs = append(x.resIDs, ecs.ResourceID[resT3](&w))
+		default:
+			x.resIDs = append(x.resIDs, ecs.ResourceTypeID(&w, reflect.PointerTo(makeType("filler", 20000+i)).Elem()))
+		}
 	}
 	if h.Listener {
 		l := &recListener{W: x, S: event.Subscription(h.LS), HasC: h.LHasC, probe: h.Probe}
@@ -490,9 +516,9 @@ func (x *World) observe() map[string]interface{} {
 		got := w.Resources().Get(id)
 		tok := -1
 		if got != nil {
-			if t, ok := got.(*resToken); ok && t != nil {
-				tok = t.Token
-				if x.resVals[i] != t {
+			if t, ok := got.(tokener); ok && !reflect.ValueOf(got).IsNil() {
+				tok = t.tok()
+				if x.resVals[i] != got {
 					tok = -3 // not the exact pointer that was added
 				}
 			} else {
